@@ -413,7 +413,7 @@ theorem new_path_exists (schema : List SNode) (f : Forest) (a : Addr) (ls : List
     cases hls : ls with
     | nil => exact absurd hls h.ne
     | cons _ _ => simp
-  simp [newPath, hhead, hc, hcf, he, hlen]
+  simp [newPath, newPathC, hhead, hc, hcf, he, hlen]
 
 /-- non-vacuity (audit): `new_path_exists` at the four nodes of `auTree`, incl. the position-addressed `mb:sl[2]` and `kl[2]/y` -/
 example : ∀ a ∈ auAddrs, ∃ p, pathOf auTree a = some p ∧ newPath auSchema auTree p [118] = .error .exists :=
@@ -541,7 +541,7 @@ theorem new_path_chain_partial (schema : List SNode) (f : Forest) (a : Addr) (ls
         | false =>
           have := hpos (by simp [hk, Kind.dupInst])
           simp [cstepOf, cpredOf, hk, Kind.dupInst, instCount, firstIdx]; omega
-  simp [newPath, hhead, hcomp, hcf, evalSteps_empty, childrenAt, hposbad, hcreate, hc]
+  simp [newPath, newPathC, hhead, hcomp, hcf, evalSteps_empty, childrenAt, hposbad, hcreate, hc]
 
 /-- non-vacuity (audit): all four hypotheses of `new_path_chain_partial` at the four nodes of `auTree` (the position-addressed
     elements are nested, so `TopPositionAbove1` does not apply), and the theorem instantiated at each -/
